@@ -34,7 +34,8 @@ def quirksOf13 (qs : List String) : ValQuirks :=
     mapEqOrdered := qs.contains "mapEqOrdered"
     mapEqOneSided := qs.contains "mapEqOneSided"
     argListNeverEqual := qs.contains "argListNeverEqual"
-    ordCalcFlag := qs.contains "ordCalcFlag" }
+    ordCalcFlag := qs.contains "ordCalcFlag"
+    ordNonNumberKept := qs.contains "ordNonNumberKept" }
 
 def listItems : V Float → Option (List (V Float))
   | .list xs _ _ => some xs
